@@ -249,3 +249,6 @@ def run(ctx):
     r03_4(ctx)
     r03_5(ctx)
     r03_6(ctx)
+    # R03.8 = R11.2: the neighbour sets of assemble_matrix are cell_supp_indices(remove_dirichlet=False)
+    import rules.C11 as c11
+    ctx.shared(c11.r11_2, 'R11.2', 'R03.8')
